@@ -14,6 +14,21 @@ TV = 'translation_validation'
 
 # id -> (category, text, design_ref, level_note, technique)
 CLAIMS = {
+    'C08': (MC,
+            'FdlPaths defines AllPaths / PathsTo / Follow on the heap machine and one acceptance predicate per '
+            'observation (BasicOK, MemoOK, ByIdOK, rebuild isomorphism); TLC checks on every complete heap in the '
+            'bound that the path sets are sound w.r.t. Follow, partition by object and that the clauses are '
+            'satisfiable. Every generated heap is realised and eight real observation streams (daglish.iterate '
+            'basic/memoized/without internables, collect_paths_by_id, State.get_all_paths, identity map_children, '
+            'legacy traverse_with_path / memoized_traverse) are compared with the specification; random larger and '
+            'hand-listed structures (defaultdict, named tuples, empty containers, positional Buildable arguments, '
+            'Partial) are recorded and judged by Trace_C08; cyclic structures must raise in bounded time; a node '
+            'type with temporaries is a scenario.',
+            'DESIGN.md §5 C08',
+            'Trusted: TLC, harness projection (identity numbering keeps every object alive). Bounded: heaps <= 4 '
+            'objects exhaustively, <= 12 randomly. The empty tuple is not memoizable by the documented API contract.',
+            'TLA+ path semantics + TLC exhaustive heap generation; stream comparison on the real library; '
+            'recorded streams judged by the specification'),
     'C01': (MC,
             'Level A (BuildExpect: call f with the reported arguments, own defaults for unset parameters, '
             'raise when a required one is missing) and level B (fiddle\'s canonical-storage to '
